@@ -45,12 +45,12 @@ def run_model(ctx, args, text, timeout=1800):
     return p.stdout.decode("utf-8", "replace").splitlines()
 
 
-def run_impl(exe, seqs, timeout=1800, max_crashes=6):
+def run_impl(exe, seqs, timeout=1800, max_crashes=4, op_timeout=10):
     """seqrun.run_batch with a bound on restarts: each op line yields one answer line; when the output
     stops inside a sequence (sanitizer abort, fatal, op timeout) that sequence gets the crash text and
     the rest is re-run in a fresh process -- at most `max_crashes` times (every hang costs the harness'
     op timeout); sequences not reached are returned as (None, "skipped")"""
-    env = dict(os.environ, ASAN_OPTIONS="detect_leaks=0")
+    env = dict(os.environ, ASAN_OPTIONS="detect_leaks=0", RELAY_OP_TIMEOUT=str(op_timeout))
     results = []
     start = 0
     crashes = 0
@@ -709,15 +709,15 @@ def run_check(ctx, prop, props_module, level):
         plan = []
         for exe, name, share in ((exe_dbg, "assert+asan", 0.6), (exe_rel, "shipped(NDEBUG)+asan", 0.4)):
             cases = []
-            counts = [("tiny", 700 if quick else 12000), ("small", 500 if quick else 8000),
-                      ("mid", 160 if quick else 2500), ("tailbuf", 60 if quick else 900)]
+            counts = [("tiny", 1600 if quick else 12000), ("small", 1200 if quick else 8000),
+                      ("mid", 400 if quick else 2500), ("tailbuf", 160 if quick else 900)]
             for cls, n in counts:
                 for _ in range(int(n * share)):
                     cases.append(gen_case(rng, cls))
             for _ in range(0 if quick else int(40 * share)):
                 cases.append(gen_case(rng, "huge", chunk_style=rng.choice(["whole", "around", "random"]),
                                       allow_beyond=True, nstreams=1))
-            for _ in range(int((150 if quick else 2500) * share)):
+            for _ in range(int((400 if quick else 2500) * share)):
                 cases.append(gen_case(rng, rng.choice(["tiny", "small", "small", "mid"]),
                                       spoil_kind=rng.choice(["nul", "magic", "magic", "abandon"]), allow_beyond=True))
             if name.startswith("assert"):
@@ -725,7 +725,7 @@ def run_check(ctx, prop, props_module, level):
             plan.append((exe, name, cases))
         for exe, name, cases in plan:
             meta = harness_meta(exe)
-            impl = run_impl(exe, [c.ops for c in cases])
+            impl = run_impl(exe, [c.ops for c in cases], op_timeout=10 if quick else 60)
             dist["flavours"][name] = len(cases)
             evaluate(ctx, prop, cases, impl, cov, dist, name, meta=meta)
             ctx.log("in-process [%s]: %d cases" % (name, len(cases)))
